@@ -84,7 +84,9 @@ def structured(n, rng_range=None):
     return out
 
 
-def swizzle_masks(n, tier, tag, two_source=False):
+def swizzle_masks(n, tier, tag, two_source=False, light=False):
+    """light: structured families only (used at quick tier for the configurations that share their kernels with a
+    representative one)"""
     R = 2 * n if two_source else n
     if not two_source and n <= 4:
         return [list(t) for t in itertools.product(range(n), repeat=n)]
@@ -93,6 +95,8 @@ def swizzle_masks(n, tier, tag, two_source=False):
     out = structured(n, R)
     rnd = random.Random('%d:%s:%d:%d' % (seed(), tag, n, R))
     count = {'quick': 48, 'thorough': 1500}[tier] if n <= 8 else {'quick': 24, 'thorough': 600}[tier]
+    if light:
+        count = 0
     for _ in range(count):
         kind = rnd.random()
         if kind < 0.4:
@@ -113,14 +117,26 @@ def swizzle_masks(n, tier, tag, two_source=False):
     # patterns a fast path must accept and their near-misses (an element from the other lane / other operand),
     # which is where a wrongly widened fast-path condition shows.
     for g in (2, 4, 8, 16):
-        if g >= n:
+        if g >= n or light:
             continue
-        cnt = {'quick': 72, 'thorough': 3000}[tier] if g <= 4 else {'quick': 24, 'thorough': 1200}[tier]
+        cnt = {'quick': 220, 'thorough': 4000}[tier] if g <= 4 else {'quick': 40, 'thorough': 1200}[tier]
         space = R ** g
         if space <= cnt:
             pats = [list(t) for t in itertools.product(range(R), repeat=g)]
         else:
-            pats = [[rnd.randrange(R) for _ in range(g)] for _ in range(cnt)]
+            # each position is drawn from a mixture that favours the values fast paths test for: the same lane of x,
+            # the same lane of y, then the other lanes of either operand -- so that patterns satisfying all but one
+            # clause of a fast-path guard (the ones a wrongly widened guard lets through) are frequent
+            def draw():
+                u = rnd.random()
+                if not two_source:
+                    return rnd.randrange(g) if u < 0.6 else rnd.randrange(n)
+                if u < 0.4:
+                    return rnd.randrange(g)
+                if u < 0.7:
+                    return n + rnd.randrange(g)
+                return rnd.randrange(R)
+            pats = [[draw() for _ in range(g)] for _ in range(cnt)]
         for P in pats:
             v = []
             for l in range(n // g):
@@ -141,7 +157,7 @@ def swizzle_masks(n, tier, tag, two_source=False):
 
 
 def bitmasks(n, tier, tag):
-    if n <= 8:
+    if n <= 4 or (n <= 8 and tier == 'thorough'):
         return list(range(1 << n))
     out = set([0, (1 << n) - 1, 1, 1 << (n - 1), (1 << (n // 2)) - 1, ((1 << (n // 2)) - 1) << (n // 2)])
     out.add(int('01' * (n // 2), 2))
